@@ -72,6 +72,17 @@ class _Ev:
             return s
         if isinstance(e, ast.Subscript):
             return self.expr(e.value, env, depth)[self.expr(e.slice, env, depth)]
+        if isinstance(e, ast.Compare) and len(e.ops) == 1 and isinstance(e.ops[0], (ast.In, ast.NotIn, ast.Eq, ast.NotEq)):
+            a, b = self.expr(e.left, env, depth), self.expr(e.comparators[0], env, depth)
+            r = (a in b) if isinstance(e.ops[0], (ast.In, ast.NotIn)) else (a == b)
+            return r if isinstance(e.ops[0], (ast.In, ast.Eq)) else not r
+        if isinstance(e, ast.UnaryOp) and isinstance(e.op, ast.Not):
+            return not self.expr(e.operand, env, depth)
+        if isinstance(e, ast.BoolOp):
+            vals = [self.expr(v, env, depth) for v in e.values]
+            return all(vals) if isinstance(e.op, ast.And) else any(vals)
+        if isinstance(e, ast.IfExp):
+            return self.expr(e.body if self.expr(e.test, env, depth) else e.orelse, env, depth)
         if isinstance(e, ast.DictComp) and len(e.generators) == 1:
             g = e.generators[0]
             out = {}
